@@ -45,9 +45,9 @@ Theorem C14_builtins_not_enumerable : forall d p, In d configs -> In p (d_props 
 Proof. exact builtins_not_enumerable. Qed.
 Print Assumptions C14_builtins_not_enumerable.
 
-(* getOwnPropertyDescriptor answers for every own property of every built-in *)
-Theorem C14_descriptors_total : forall d p, In d configs -> In p (d_props d) -> p_kind p = PBroken ->
-  host_owned (p_owner p) (p_name p) = true /\ In (p_name p) broken_names.
+(* 15.2.3.3: getOwnPropertyDescriptor answers for every own property of every object reachable
+   from the global object and of every specimen (function, bound function, Error instance ...) *)
+Theorem C14_descriptors_total : forall d p, In d configs -> In p (d_props d) -> p_kind p <> PBroken.
 Proof. exact descriptors_total. Qed.
 Print Assumptions C14_descriptors_total.
 
@@ -92,12 +92,10 @@ Theorem C14_forin_builtin_tail_invisible : forall own tail k,
 Proof. exact forin_builtin_tail_invisible. Qed.
 Print Assumptions C14_forin_builtin_tail_invisible.
 
-(* on the dumps: for-in over objects, arrays, strings, functions, arguments,
-   JSON results ... shows no key beyond the program's own, and (except for the
-   listed String-index deviation) shows all of those *)
+(* on the dumps: for-in over objects, arrays, String objects, functions, arguments, JSON
+   results ... shows exactly the program's own enumerable keys *)
 Theorem C14_forin_clean : forall d x, In d configs -> In x forin_expect ->
-  (forall k, In k (forin_of d (fst x)) -> In k (snd x)) /\
-  (~ In (fst x) forin_incomplete -> forall k, In k (snd x) -> In k (forin_of d (fst x))).
+  forall k, In k (forin_of d (fst x)) <-> In k (snd x).
 Proof. exact forin_clean. Qed.
 Print Assumptions C14_forin_clean.
 
@@ -137,6 +135,12 @@ Theorem C14_exceptions_are_table_entries : forall x, In x exceptions ->
   (exists e, In e all_props /\ e_owner e = x_owner x /\ e_name e = x_name x).
 Proof. exact exceptions_in_table. Qed.
 Print Assumptions C14_exceptions_are_table_entries.
+
+(* Copy() of a runtime whose script deleted or rebound the global eval: the clone (as repaired by
+   1f3ee72, modelled in Check.v) returns in every state of that binding, as required *)
+Theorem C14_copy_total : forall st, copy_panics_model st = copy_panics_spec st.
+Proof. exact copy_total. Qed.
+Print Assumptions C14_copy_total.
 
 (* non-vacuity *)
 Example C14_table_size :
